@@ -119,7 +119,10 @@ let creq_of (t : string) : M.creq =
   else if t = "o" then M.COffset
   else if t = "hl" then M.CHasLimit
   else if t = "lr" then M.CLimitReached
-  else if starts_with "ws" t then M.CWords (nat_of_int (int_of_string ("0x" ^ after "ws" t)))
+  else if starts_with "ws" t then
+    (* the loop stops at the first failing word, buffers are short: a huge count is capped (unary nat) *)
+    let h = after "ws" t in
+    M.CWords (nat_of_int (if String.length h > 3 then 5000 else int_of_string ("0x" ^ h)))
   else if starts_with "sl" t then M.CSetLimit (n_of_hex (after "sl" t))
   else if starts_with "t:" t then M.CTyped (coq_string_of (after "t:" t))
   else failwith ("bad request " ^ t)
